@@ -124,6 +124,12 @@ func (s *state) findSegmentReader(idx uint64) (types.SegmentReader, error) {
 	return nil, ErrNotFound
 }
 
+// closed reports whether this is the empty state that Close publishes. It has
+// no segments map and no tail so nothing else may be called on it.
+func (s *state) closed() bool {
+	return s.segments == nil
+}
+
 func (s *state) getTailInfo() *segmentState {
 	it := s.segments.Iterator()
 	it.Last()
